@@ -257,9 +257,13 @@ func (h *hist) opSpanSign() {
 			any = true
 		}
 	}
-	if any {
-		h.block()
+	if !any {
+		// nothing unsigned on one of the chains: new messages for both, the next round finds them
+		for _, ch := range h.chains {
+			h.execJobOn(ch)
+		}
 	}
+	h.block()
 }
 
 // spanConfirm: one transaction of v with confirms for one batch of each of two chains; wrong = index of the
